@@ -23,6 +23,7 @@ type recEvent struct {
 	Op      string // load save clear ping obtain release redeem enrich email refresh validate authorize fromtoken htpasswd
 	Err     bool
 	ErrKind string // "nocookie" "notobtained" "notimpl" ""
+	ErrMsg  string // err.Error() of provider calls (redeem / refresh / fromtoken), for error-class correspondence
 	Sess    *sessionsapi.SessionState
 	Bool    bool
 	Args    []string
@@ -98,6 +99,13 @@ func (r *recorder) byOp(op string) []recEvent {
 }
 
 var errInjected = errors.New("verif: injected fault")
+
+func errText(err error) string {
+	if err == nil {
+		return ""
+	}
+	return err.Error()
+}
 
 func copySession(s *sessionsapi.SessionState) *sessionsapi.SessionState {
 	if s == nil {
@@ -260,7 +268,7 @@ func (p *recProvider) GetLoginURL(redirectURI, finalRedirect, nonce string, extr
 func (p *recProvider) Redeem(ctx context.Context, redirectURI, code, verifier string) (*sessionsapi.SessionState, error) {
 	p.rec.begin("redeem")
 	s, err := p.inner.Redeem(ctx, redirectURI, code, verifier)
-	p.rec.add(recEvent{Op: "redeem", Err: err != nil, Sess: copySession(s), Args: []string{redirectURI, code, verifier}})
+	p.rec.add(recEvent{Op: "redeem", Err: err != nil, ErrMsg: errText(err), Sess: copySession(s), Args: []string{redirectURI, code, verifier}})
 	return s, err
 }
 func (p *recProvider) GetEmailAddress(ctx context.Context, s *sessionsapi.SessionState) (string, error) {
@@ -290,7 +298,7 @@ func (p *recProvider) ValidateSession(ctx context.Context, s *sessionsapi.Sessio
 func (p *recProvider) RefreshSession(ctx context.Context, s *sessionsapi.SessionState) (bool, error) {
 	before := copySession(s)
 	ok, err := p.inner.RefreshSession(ctx, s)
-	ev := recEvent{Op: "refresh", Err: err != nil, Bool: ok, Sess: copySession(s), Args: []string{before.RefreshToken}}
+	ev := recEvent{Op: "refresh", Err: err != nil, ErrMsg: errText(err), Bool: ok, Sess: copySession(s), Args: []string{before.RefreshToken}}
 	if errors.Is(err, providers.ErrNotImplemented) {
 		ev.ErrKind = "notimpl"
 	}
@@ -299,7 +307,7 @@ func (p *recProvider) RefreshSession(ctx context.Context, s *sessionsapi.Session
 }
 func (p *recProvider) CreateSessionFromToken(ctx context.Context, token string) (*sessionsapi.SessionState, error) {
 	s, err := p.inner.CreateSessionFromToken(ctx, token)
-	p.rec.add(recEvent{Op: "fromtoken", Err: err != nil, Sess: copySession(s), Args: []string{token}})
+	p.rec.add(recEvent{Op: "fromtoken", Err: err != nil, ErrMsg: errText(err), Sess: copySession(s), Args: []string{token}})
 	return s, err
 }
 
